@@ -1,0 +1,45 @@
+//go:build verif
+
+package gpkg
+
+import (
+	"database/sql"
+
+	"github.com/go-spatial/geom"
+	"github.com/go-spatial/geom/cmp"
+	"github.com/go-spatial/geom/encoding/gpkg"
+	"github.com/mattn/go-sqlite3"
+)
+
+// verification hook: libspatialite is not available in the sandbox, so register a "spatialite" driver backed by
+// plain SQLite with the handful of ST_ functions that the GeoPackage rtree triggers need.
+func init() {
+	extentOf := func(blob []byte) *geom.Extent {
+		sb, err := gpkg.DecodeGeometry(blob)
+		if err != nil || cmp.IsEmptyGeo(sb.Geometry) {
+			return nil
+		}
+		ext, err := geom.NewExtentFromGeometry(sb.Geometry)
+		if err != nil {
+			return nil
+		}
+		return ext
+	}
+	sql.Register(gpkg.SPATIALITE, &sqlite3.SQLiteDriver{
+		ConnectHook: func(conn *sqlite3.SQLiteConn) error {
+			fns := map[string]interface{}{
+				"ST_IsEmpty": func(blob []byte) bool { return extentOf(blob) == nil },
+				"ST_MinX":    func(blob []byte) float64 { return extentOf(blob).MinX() },
+				"ST_MaxX":    func(blob []byte) float64 { return extentOf(blob).MaxX() },
+				"ST_MinY":    func(blob []byte) float64 { return extentOf(blob).MinY() },
+				"ST_MaxY":    func(blob []byte) float64 { return extentOf(blob).MaxY() },
+			}
+			for name, fn := range fns {
+				if err := conn.RegisterFunc(name, fn, true); err != nil {
+					return err
+				}
+			}
+			return nil
+		},
+	})
+}
